@@ -84,6 +84,9 @@ func (its *ordaMap) Put(key string, value interface{}) (interface{}, errors.Orda
 		return nil, errors.DatatypeIllegalParameters.New(its.L(), "neither empty key nor null value is not allowed")
 	}
 	jsonSupportedType := types.ConvertToJSONSupportedValue(value)
+	if err := types.CheckJSONValue(jsonSupportedType); err != nil {
+		return nil, errors.DatatypeIllegalParameters.New(its.L(), err.Error())
+	}
 
 	op := operations.NewPutOperation(key, jsonSupportedType)
 	return its.SentenceInTx(its.TxCtx, op, true)
